@@ -2464,6 +2464,14 @@ setattr_trait(
                     }
                 }
                 if (value == NULL) {
+                    /* The new (default) value could not be computed: the
+                       deletion has failed, so put the old value back. */
+                    PyObject *exc_type, *exc_value, *exc_tb;
+                    PyErr_Fetch(&exc_type, &exc_value, &exc_tb);
+                    if (PyDict_SetItem(dict, name, old_value) < 0) {
+                        PyErr_Clear();
+                    }
+                    PyErr_Restore(exc_type, exc_value, exc_tb);
                     Py_DECREF(old_value);
                     return -1;
                 }
